@@ -674,18 +674,47 @@ void printAstSymbol(ASTNode const & symbolNode) {
     }
 }
 
+void printAstSortNode(ASTNode const & sortNode) {
+    if (sortNode.getType() == SYM_T or sortNode.getType() == QSYM_T) {
+        printAstSymbol(sortNode);
+    } else {
+        // (name sort+)
+        std::cout << '(';
+        bool first = true;
+        for (ASTNode const * child : *sortNode.children) {
+            if (not first) { std::cout << ' '; }
+            first = false;
+            printAstSortNode(*child);
+        }
+        std::cout << ')';
+    }
+}
+
+void printAstIdentifier(ASTNode const & identifier) {
+    if (identifier.getType() == AS_T) {
+        // (as symbol sort): the node itself has no value
+        std::cout << "(as ";
+        printAstSymbol(*(*identifier.children)[0]);
+        std::cout << ' ';
+        printAstSortNode(*(*identifier.children)[1]);
+        std::cout << ')';
+    } else {
+        printAstSymbol(identifier);
+    }
+}
+
 void printAstTermNode(ASTNode const & astNode) {
     ASTType t = astNode.getType();
     if (t == TERM_T) {
         const char* name = (**(astNode.children->begin())).getValue();
         std::cout << name;
     } else if (t == QID_T) {
-            printAstSymbol(**(astNode.children->begin()));
+        printAstIdentifier(**(astNode.children->begin()));
     } else if ( t == LQID_T ) {
         // Multi-argument term
         auto node_iter = astNode.children->begin();
         std::cout << "(";
-        printAstSymbol(**node_iter); node_iter++;
+        printAstIdentifier(**node_iter); node_iter++;
         std::cout << " ";
         bool first = true;
         for (; node_iter != astNode.children->end(); node_iter++) {
